@@ -438,6 +438,41 @@ static void f12_render (uint64_t idx) {
   S ("  mov g, r0\n  ret r\n"); end_func ();
 }
 
+/* =============================== F13: single-block loops with loop-carried copies (phi webs: lost-copy and swap shapes) =============================== */
+static const char *F13_ST[] = {"mov p0, a", "mov q0, b", "mov a, b", "mov b, a", "mov a, p0", "mov b, q0", "ursh a, a, 1", "add b, b, 1", "sub a, a, 1", "xor a, a, b", "mov p0, q0", "and b, b, a"};
+#define NF13S 12
+static const char *F13_BR[] = {"bne L1, a, p0", "bne L1, b, q0", "bne L1, a, b", "blt L1, a, b", "bne L1, p0, q0", "bgt L1, a, 0", "bne L1, a, q0", "ubgt L1, b, a"};
+#define NF13B 8
+static int f13_len (int th) { return th ? 4 : 3; }
+static uint64_t f13_count (int th) { uint64_t n = NF13B; for (int i = 0; i < f13_len (th); i++) n *= NF13S; return n; }
+static void f13_render (uint64_t idx) {
+  extern int progfam_thorough; int br = idx % NF13B; idx /= NF13B;
+  begin_func ("i64:p0, i64:q0, i64:n"); S ("  mov p0, -1\n  mov q0, -1\n  mov n, 0\nL1:\n");
+  for (int i = 0; i < f13_len (progfam_thorough); i++) { S ("  %s\n", F13_ST[idx % NF13S]); idx /= NF13S; }
+  S ("  add n, n, 1\n  %s\n  mul r, a, 3\n  add r, r, b\n  mul r, r, 5\n  add r, r, p0\n  xor r, r, q0\n  mul r, r, 7\n  add r, r, n\n  ret r\n", F13_BR[br]); end_func ();
+}
+static int f13_ninputs (uint64_t idx) { return 20; }
+static pinput f13_input (uint64_t idx, int i) { static const int64_t av[] = {0, 1, 100, -1, 7}, bv[] = {0, 3, 100, -5}; pinput p = {av[i % 5], bv[i / 5], -1, 0, 0}; return p; }
+
+/* =============================== F14: structured loops (conditional inside a loop, if/else, nested loop, definitions used after the loop) =============================== */
+static const char *F14_ST[] = {"mov p0, a", "mov a, b", "mov b, p0", "ursh a, a, 1", "add b, b, 1", "xor a, a, b", "mov q0, a", "sub a, a, q0"};
+#define NF14S 8
+static const char *F14_CD[] = {"bne %s, a, p0", "blt %s, a, b", "bgt %s, a, 0", "bne %s, b, q0", "ubgt %s, b, a", "beq %s, p0, q0"};
+#define NF14C 6
+static uint64_t f14_count (int th) { return 4ull * NF14S * NF14S * NF14S * NF14C * NF14C; }
+static void f14_render (uint64_t idx) {
+  int c2 = idx % NF14C; idx /= NF14C; int c1 = idx % NF14C; idx /= NF14C; int s3 = idx % NF14S; idx /= NF14S; int s2 = idx % NF14S; idx /= NF14S; int s1 = idx % NF14S; int k = (int) (idx / NF14S);
+  char b1[64], b2[64]; snprintf (b1, sizeof b1, F14_CD[c1], k == 1 ? "LI" : "T1"); snprintf (b2, sizeof b2, F14_CD[c2], "L1");
+  begin_func ("i64:p0, i64:q0, i64:n, i64:j"); S ("  mov p0, -1\n  mov q0, -1\n  mov n, 0\n");
+  switch (k) {
+  case 0: S ("L1:\n  %s\n  %s\n  jmp E1\nT1:\n  %s\nE1:\n  %s\n  add n, n, 1\n  %s\n", F14_ST[s1], b1, F14_ST[s2], F14_ST[s3], b2); break;                     /* do { S1; if (C1) S2; S3 } while (C2) */
+  case 1: S ("L1:\n  %s\n  mov j, 3\nLI:\n  %s\n  sub j, j, 1\n  ble EI, j, 0\n  %s\nEI:\n  %s\n  add n, n, 1\n  %s\n", F14_ST[s1], F14_ST[s2], b1, F14_ST[s3], b2); break; /* nested: inner loop runs while C1, at most 3 times */
+  case 2: S ("  %s\nL1:\n  %s\n  add n, n, 1\n  %s\n  %s\n  %s\n  add n, n, 100\nT1:\n", F14_ST[s1], F14_ST[s2], b2, F14_ST[s3], b1); break;                         /* S1; do S2 while (C2); S3; if (!C1) n += 100 */
+  default: S ("L1:\n  %s\n  %s\n  jmp E1\nT1:\n  %s\nE1:\n  add n, n, 1\n  %s\n", b1, F14_ST[s1], F14_ST[s2], b2); S ("  %s\n", F14_ST[s3]); break;                /* do { if (C1) S2 else S1 } while (C2); S3 */
+  }
+  S ("  mul r, a, 3\n  add r, r, b\n  mul r, r, 5\n  add r, r, p0\n  xor r, r, q0\n  mul r, r, 7\n  add r, r, n\n  ret r\n"); end_func ();
+}
+
 int progfam_thorough;
 static const family FAMILIES[] = {
   {"F1a-ext-chains", f1a_count, f1a_render, in_intgrid_n, in_intgrid},
@@ -457,6 +492,8 @@ static const family FAMILIES[] = {
   {"F10-branch-rewrites", f10_count, f10_render, f10_ninputs, f10_input},
   {"F11-fp-compares", f11_count, f11_render, f11_ninputs, f11_input},
   {"F12-hard-register-variables", f12_count, f12_render, in_intgrid_n, in_intgrid},
+  {"F13-loop-carried-copies", f13_count, f13_render, f13_ninputs, f13_input},
+  {"F14-structured-loops", f14_count, f14_render, f13_ninputs, f13_input},
 };
 #define NFAM ((int) (sizeof (FAMILIES) / sizeof (FAMILIES[0])))
 #endif
